@@ -177,7 +177,6 @@ class Fn:
             if include_starts:
                 seen.add(s)
             dq.append(s)
-        first = set(starts)
         while dq:
             n = dq.popleft()
             for (m, si) in self.succ(n):
